@@ -190,23 +190,14 @@ fn c03_dec_b() {
     core::mem::forget(data);
 }
 
-/// STRING-like types: N bytes of arbitrary input. `$model` is the reader method; `$valid` an extra content check.
+/// STRING-like types: N bytes of arbitrary input. The message offset is dispatched to a const generic so that all
+/// alignment arithmetic is concrete inside each instantiation (one query still covers offsets 0..=3).
 macro_rules! dec_text {
-    ($h:ident, $ty:ty, $sig:expr, $N:expr, $rd:ident, $U:expr, |$t:ident| $content_ok:expr, $known_terminator:expr) => {
-        #[kani::proof]
-        #[kani::unwind($U)]
-        #[kani::stub(alloc::fmt::format, no_format)]
-        #[kani::stub(<std::os::fd::OwnedFd as core::ops::Drop>::drop, no_close)]
-        fn $h() {
-            let buf: [u8; $N] = kani::any();
-            let len: usize = kani::any();
-            kani::assume(len <= $N);
-            let pos: usize = kani::any();
-            kani::assume(pos < 4);
-            let be: bool = kani::any();
-            let data = Data::new(&buf[..len], ctx(pos, be));
+    ($h:ident, $body:ident, $ty:ty, $sig:expr, $N:expr, $rd:ident, $U:expr, |$t:ident| $content_ok:expr) => {
+        fn $body<const POS: usize>(buf: &[u8; $N], len: usize, be: bool) {
+            let data = Data::new(&buf[..len], ctx(POS, be));
             let r = data.deserialize_for_signature::<_, $ty>($sig);
-            let mut rd = In::new(&buf[..len], pos, be);
+            let mut rd = In::new(&buf[..len], POS, be);
             let model = match rd.$rd() {
                 Some((start, n)) => {
                     let $t = &buf[start..start + n];
@@ -239,7 +230,27 @@ macro_rules! dec_text {
             core::mem::forget(r);
             core::mem::forget(data);
         }
+        #[kani::proof]
+        #[kani::unwind($U)]
+        #[kani::stub(alloc::fmt::format, no_format)]
+        #[kani::stub(<std::os::fd::OwnedFd as core::ops::Drop>::drop, no_close)]
+        #[kani::stub(core::str::from_utf8, naive_from_utf8)]
+        #[kani::stub(core::slice::memchr::memchr, naive_memchr)]
+        fn $h() {
+            let buf: [u8; $N] = kani::any();
+            let len: usize = kani::any();
+            kani::assume(len <= $N);
+            let pos: usize = kani::any();
+            kani::assume(pos < 4);
+            let be: bool = kani::any();
+            match pos {
+                0 => $body::<0>(&buf, len, be),
+                1 => $body::<1>(&buf, len, be),
+                2 => $body::<2>(&buf, len, be),
+                _ => $body::<3>(&buf, len, be),
+            }
+        }
     };
 }
-dec_text!(c03_dec_s, &str, Signature::Str, 10, string, 12, |_t| true, false);
-dec_text!(c03_dec_o, ObjectPath<'_>, Signature::ObjectPath, 10, string, 12, |t| crate::refmodel::names::object_path(t), false);
+dec_text!(c03_dec_s, c03_dec_s_body, &str, Signature::Str, 8, string, 10, |_t| true);
+dec_text!(c03_dec_o, c03_dec_o_body, ObjectPath<'_>, Signature::ObjectPath, 8, string, 10, |t| crate::refmodel::names::object_path(t));
